@@ -616,6 +616,10 @@ where
         // Whether the current argument has begun: a quote was opened or a byte
         // was taken (a backslash alone quotes nothing).
         let mut in_argument = false;
+        // Whether the byte just taken was a blank quoted by a backslash: a line
+        // whose last character is a blank continues on the next line (-L), also
+        // when that blank belongs to the argument.
+        let mut after_escaped_blank = false;
         let mut i = 0;
         loop {
             if i == pending.len() {
@@ -647,6 +651,7 @@ where
                 i = 0;
             }
 
+            let was_escaped_blank = std::mem::take(&mut after_escaped_blank);
             match (&escape, pending[i]) {
                 (Some(Escape::Quote(quote)), c) if c == *quote => escape = None,
                 (Some(Escape::Quote(_)), c) => result.push(c),
@@ -654,6 +659,7 @@ where
                     result.push(c);
                     in_argument = true;
                     escape = None;
+                    after_escaped_blank = matches!(c, b' ' | b'\t');
                 }
                 (None, c @ (b'"' | b'\'')) => {
                     in_argument = true;
@@ -663,7 +669,7 @@ where
                 (None, c) if is_separator(c) => {
                     // '' and "" are arguments too.
                     if in_argument {
-                        terminated_by_newline = c == b'\n';
+                        terminated_by_newline = c == b'\n' && !was_escaped_blank;
                         break;
                     }
                 }
